@@ -210,9 +210,19 @@ def trafficStages : List String :=
 def dnsStages : List String :=
   ["DatReaderOptimizer", "MergeAndSortRulesOptimizer", "DeduplicateParamsOptimizer"]
 
-/-- traffic routing: alias → dat → merge-and-sort → dedup -/
+/-! ### `config.patchMustOutbound` (runs inside `config.New`, before the traffic call site) -/
+
+/-- `-> must_X` is shorthand for `-> X(…, must)`; `must_rules` is reserved. -/
+def patchOut (o : Func) : Func :=
+  if o.name.toList.take 5 = "must_".toList ∧ o.name ≠ "must_rules" then
+    { o with name := String.ofList (o.name.toList.drop 5), params := o.params ++ [⟨"", "must"⟩] }
+  else o
+
+def patchMustOpt (rs : Prog) : Prog := rs.map fun r => { r with out := patchOut r.out }
+
+/-- traffic routing: (config: must_ shorthand) → alias → dat → merge-and-sort → dedup -/
 def trafficPipeline (g : Geo) (rs : Prog) : Option Prog :=
-  (datOpt g (aliasOpt rs)).map fun e => dedupOpt (mergeSortOpt e)
+  (datOpt g (aliasOpt (patchMustOpt rs))).map fun e => dedupOpt (mergeSortOpt e)
 
 /-- DNS request and response routing: dat → merge-and-sort → dedup -/
 def dnsPipeline (g : Geo) (rs : Prog) : Option Prog :=
@@ -320,6 +330,10 @@ structure MatchSetSem {δ : Type} (S : Sem δ) : Prop where
   guard : ∀ n, S.guard n = true
   emptyVal : ∀ n, S.emptyVal n = false
 
+/-- traffic rules as the user wrote them: additionally `must_X` outbounds mean `X(…, must)`. -/
+def userSemTraffic {δ : Type} (S : Sem δ) (g : Geo) : Sem δ :=
+  { userSem S g true with parseOut := fun o => S.parseOut (patchOut o) }
+
 /-! ## `RulesBuilder.Apply`: lowering to match sets -/
 
 /-- one match set: function name, key, the values of that key group. -/
@@ -399,6 +413,19 @@ def selCompiled {δ : Type} (S : Sem δ) : Prog → δ → Bool → δ × Bool
       | .final o => (o, must)
       | .mustRules => selCompiled S rs fb true
     else selCompiled S rs fb must
+
+/-- first hit wins -/
+def orElseLookup {υ : Type} (a b : Option υ) : Option υ :=
+  match a with
+  | some u => some u
+  | none => b
+
+/-- `Router.MatchNodeUpstream`: a node that comes from a subscription is first looked up in the
+`subnode` rules, and only without a hit there (or for a manual node) in the `node` rules. `δ = Option υ`:
+`none` = no rule matched. -/
+def nodeLookup {υ : Type} (S : Sem (Option υ)) (tagged : Bool) (subnodeRules nodeRules : Prog) : Option υ :=
+  orElseLookup (if tagged then (selCompiled S subnodeRules none false).1 else none)
+    (selCompiled S nodeRules none false).1
 
 /-! ## `SplitRequestRules` -/
 
